@@ -112,6 +112,17 @@ def pins_obligations(ctx, eq, topo, sizes=None, segments=None):
             if nm in segments:
                 ctx.oblige(segments[nm]["nx"] == sizes[opt], "T12:segment %s has %s radial cells" % (nm, opt))
     split_obligations(ctx, eq, topo, sizes, segments)
+    # T14: radially adjoining segments of one region meet on ONE flux surface (else the corner points
+    # on their shared radial edge cannot coincide): psi_end of a segment = psi_start of the next
+    if segments is not None:
+        for nm, reg in eq.regions.items():
+            tags = [getattr(pv, "tag", None) for pv in reg.psi_vals]
+            for a, b in zip(tags, tags[1:]):
+                if a is None or b is None or a == b or a not in segments or b not in segments:
+                    continue  # (a == b: the two halves of a split private-flux segment, T13)
+                ea, sb = segments[a].get("psi_end"), segments[b].get("psi_start")
+                cond = ea == sb
+                ctx.oblige(cond if isinstance(cond, Sym) else TRUE(ea is not None and cond), "T14:%s: segment %s ends on the flux surface where %s starts" % (nm, a, b))
     # T10: a wall surface is attached exactly at wall ends, X-point pins exactly at X-point ends
     for nm, reg in eq.regions.items():
         lo, up = reg.kind.split(".")
@@ -433,6 +444,10 @@ def build(S):
     with numpy_shimmed():
         for topo in tk.TOPOLOGIES:
             S.contract("topology[%s]" % topo, FNS[-1], make_run(topo), shape="structure concrete, all sizes symbolic Int", expected_exceptions=(ValueError,), raises_ok=refused_ok)
+        # connected double nulls whose two separatrices differ slightly (either X-point primary): every
+        # segment touching a separatrix is put on the PRIMARY one, so that radial neighbours meet (T14)
+        for topo in ("cdn_unbalanced", "cdn_upper_primary"):
+            S.contract("hand-over obligations T7-T14[%s]" % topo, "hypnotoad.cases.tokamak:TokamakEquilibrium.describeDoubleNull", make_pins_run(topo), expected_exceptions=(ValueError,), raises_ok=refused_ok, shape="sizes symbolic, psi_sep = [1.0, 1.02]")
         from vc import transform
 
         S.under_contract(FN_GEO)
